@@ -8,10 +8,17 @@ That *drawn geometry* is the reference; it uses `render` and canvas composition 
 get_cursor_coords / mouse_event / move_cursor_to_coords code under test.
 
 Fit precondition (statement: "every widget on the way gets at least the columns and rows it needs; no
-child hidden or clipped"): a (tree, size) is in scope iff every leaf is drawn as one complete rectangle
-of its canvas, on unwrapped lines, an Edit having one column beyond its longest line, and every node is
-one translated copy of its own canvas inside the root area.  Sizes that do not fit are skipped; an
-exception while rendering counts only at a size that dominates (>= in both dimensions) a fitting one.
+child hidden or clipped"): a (tree, size) is in scope iff
+ * every leaf is drawn as one complete rectangle of its own canvas, on unwrapped lines, an Edit having one
+   column beyond its longest line (otherwise its own view shifting, a C10 matter, changes what is drawn);
+ * every node is one translated copy of its own canvas inside its parent's rectangle, character for
+   character (so a LineBox border scrolled out of a ListBox, or a Frame header trimmed away, is "clipped");
+ * what a container was *told* to give is available: given widths/heights are handed to the child in full,
+   min_width/min_height likewise, the area is at least the child as drawn plus the left/right/top/bottom
+   margins, a GridFlow cell gets its cell width (judged on sizes only, not on positions: a container that
+   has the room but misplaces its child stays in scope).
+Sizes that do not fit are skipped; an exception while rendering counts only at a size that dominates (>=
+in both dimensions) a fitting one.  The fixed size () is tried for roots that declare FIXED sizing.
 
 Clauses (one Check each):
  cursor-report   root.get_cursor_coords(size) on a never-rendered tree == root.render(size, True).cursor
@@ -34,6 +41,17 @@ Readings of the statement fixed here (see the final report of the build):
    of that row band (what Padding and Columns document); ties between equally near children are free.
  * "the wrapped widget accepts": answered by a twin of the child, built from the same descriptor, asked
    on its own with the size the child was drawn at; a selectable child without the method accepts.
+ * "afterwards the reported cursor is on the requested row": exact when every widget on the new focus
+   chain defines move_cursor_to_coords.  A widget that does not (SelectableIcon; ListBox, Frame, Overlay -
+   DESIGN section 6 C09 (iii)) cannot be asked to place its cursor; it takes the focus as a whole, and the
+   demand becomes: the requested row is one of its drawn rows and the reported cursor is inside them.
+ * mouse, "and to no other child": binding where some child IS drawn at the cell.  A cell in a container's
+   own padding (nothing drawn there) is not constrained by the statement; deliveries for such cells are
+   only counted (run()["info"]): Columns hands the cell under a short column to that column's widget.
+ * mouse and move are judged on a tree that has been rendered at the size ("for any widget tree rendered
+   at a size ..."); only cursor-report asks a never-rendered tree ("reports without rendering").
+ * cursor clauses and move-cursor are evaluated when the focus leaf is an Edit / SelectableIcon / Button /
+   CheckBox (quantifier: "focus chain implements the cursor protocol"); the mouse clauses for every tree.
 """
 from __future__ import annotations
 
@@ -138,6 +156,13 @@ class MergedCheck(Check):
     def result(self):
         r = super().result()
         kinds = sorted(self.tally.by_sig.items(), key=lambda kv: Tally._weight(kv[1][1]))
+        # the 20 reported failures: first the smallest case of every suspected root cause, then the rest
+        seen, head, tail = set(), [], []
+        for kv in kinds:
+            sus = kv[1][1].get("suspect")
+            (tail if sus in seen else head).append(kv)
+            seen.add(sus)
+        kinds = head + tail
         r.update(
             evaluations=self.tally.ev,
             distinct_nontrivial=self.tally.nt,
@@ -476,6 +501,15 @@ def suspect(desc, dr, det):
             return "Padding(width=given) at the fixed size (): render sizes the child (width,), the other entry points pass ()"
     if det.get("reported_after_render", 0) == det.get("rendered", 1) and "gridflow" in kinds.values():
         return "never-rendered GridFlow: pack((cols,)) is answered by the stale display widget"
+    sig = det.get("sig", "")
+    if sig.startswith("mouse nothing") and any(k == "overlay" and desc_at(desc, p)[6] == "pack" and desc_at(desc, p)[4] != "pack" for p, k in kinds.items()):
+        return "Overlay measures the rows of a flow top widget at the full width, not at the top widget's width"
+    if sig.startswith(("move returned True expected False", "focus went to a widget not on the row", "cursor row after move")):
+        for p, k in kinds.items():
+            if k == "filler" and not hasattr(dr.tree.nodes[(*p, 0)], "move_cursor_to_coords"):
+                return "Filler.move_cursor_to_coords answers True before looking at the row when its child defines no move_cursor_to_coords"
+        if "columns" in kinds.values() or "gridflow" in kinds.values() or "button" in kinds.values() or "check" in kinds.values():
+            return "Columns.move_cursor_to_coords passes any row to the chosen column (also inside Button / CheckBox / GridFlow): a row below a short column is accepted"
     return None
 
 
@@ -484,7 +518,7 @@ def _fin(desc, dr, det):
         s = suspect(desc, dr, det)
         if s:
             det["suspect"] = s
-            det["sig"] = f"{det['sig']} <{s.split(':')[0].split(' (')[0]}>"
+            det["sig"] = f"{det['sig']} <{s.split(':')[0].split(' (')[0][:60]}>"
     return det
 
 
@@ -682,27 +716,39 @@ def _dedup(trees):
 
 
 # ------------------------------------------------------------------------------------------------
+# Two-container trees that are always included (they showed the GridFlow / Overlay root causes found while
+# building this check; the quick tier's sample of two-container trees need not contain such a tree).
+CURATED = [
+    ["pile", [["pack", ["gridflow", [E2, IC], 5, 2, 0, "center", 1]], ["pack", E1]], 1, False],
+    ["overlay", ["gridflow", [TX, E1], 5, 2, 0, "center", 1], None, "left", 7, "top", "pack", 1, 0, 1, 0],
+    ["overlay", ["gridflow", [TX, E1], 5, 2, 0, "center", 1], None, "right", ["relative", 80], "bottom", "pack", 0, 1, 0, 1],
+    ["filler", ["padding", IC, "left", ["relative", 100], 1, 2, None], "middle", "pack", 0, 0, None],
+    ["pile", [[["given", 4], ["filler", IC, "middle", "pack", 0, 0, None]], ["pack", E1]], None, False],
+    ["columns", [[["weight", 1], ["pile", [["pack", TX], ["pack", E2]], None, False], False], [["weight", 1], CB, False]], 1, None],
+]
+
+
 def _plan(tier, seed):
     r = rng(seed)
     l1 = _dedup(level1())
     l2 = _dedup(next_level(l1))
-    tasks = []
+    tasks = [(t, 2, seed * 100003 + 990000 + i) for i, t in enumerate(CURATED)]
     if tier == "quick":
         tasks += [(t, 1, seed * 100003 + i) for i, t in enumerate(l1)]
         pick = r.sample(range(len(l2)), 350)
         tasks += [(l2[i], 1, seed * 100003 + 50000 + i) for i in sorted(pick)]
-        desc = f"all {len(l1)} one-container trees at their smallest fitting size + 1 seeded larger size; 350 of {len(l2)} two-container trees (seeded sample) at the smallest fitting size + 1 larger"
+        desc = f"{len(CURATED)} curated trees; all {len(l1)} one-container trees at their smallest fitting size + 1 seeded larger size; 350 of {len(l2)} two-container trees (seeded sample) at the smallest fitting size + 1 larger"
     else:
         tasks += [(t, "all", 0) for t in l1]
-        tasks += [(t, 2, seed * 100003 + 50000 + i) for i, t in enumerate(l2)]
+        tasks += [(t, 1, seed * 100003 + 50000 + i) for i, t in enumerate(l2)]
         l3n = 0
         # three containers: seeded sample, generated lazily from a sample of level 2
         base = [l2[i] for i in sorted(r.sample(range(len(l2)), 400))]
         l3 = _dedup(next_level(base))
-        pick = sorted(r.sample(range(len(l3)), min(len(l3), 4000)))
+        pick = sorted(r.sample(range(len(l3)), min(len(l3), 2000)))
         tasks += [(l3[i], 1, seed * 100003 + 900000 + i) for i in pick]
         l3n = len(pick)
-        desc = f"all {len(l1)} one-container trees at every fitting size; all {len(l2)} two-container trees at the smallest fitting size + 2 seeded larger; {l3n} three-container trees (seeded sample) at the smallest fitting size + 1 larger"
+        desc = f"{len(CURATED)} curated trees; all {len(l1)} one-container trees at every fitting size; all {len(l2)} two-container trees at the smallest fitting size + 1 seeded larger; {l3n} three-container trees (seeded sample) at the smallest fitting size + 1 larger"
     return tasks, desc
 
 
@@ -732,7 +778,7 @@ def run(tier="quick", seed=0):
         f"leaves Edit x4 / SelectableIcon / Button / CheckBox / Text x2 under AttrMap, LineBox, Padding, Filler, Overlay, BoxAdapter, Frame, Pile, Columns, ListBox, GridFlow; {desc}; "
         f"sizes <= {MAXC}x{MAXR} satisfying the fit precondition ({fit} fitting of {tried} rendered, {nofit} of {len(tasks)} trees fit nowhere); every cell of the rendered area"
     )
-    checks = [MergedCheck(f"{ID}/{c}", rule, tier != "quick", bound, total[c], wall).result() for c, rule in CLAUSES.items()]
+    checks = [MergedCheck(f"{ID}/{c}", rule, False, bound, total[c], wall).result() for c, rule in CLAUSES.items()]
     return {"checks": checks, "bound": bound, "info": {"trees_refused_by_constructors": len(invalid), "refusals": sorted(set(invalid))[:10], "events_delivered_for_cells_in_a_containers_own_padding (not constrained by the statement)": padding}}
 
 
